@@ -1004,6 +1004,19 @@ func (rc *raftNode) processReady(rd raft.Ready) {
 			applyWaitDone = make(chan struct{})
 		}
 	}
+	// If this Ready commits entries it also hands out as unstable for the first
+	// time (the leader of a single-voter group does), it must reach the WAL before
+	// the entries are applied and acknowledged and before any message carrying
+	// the new commit index leaves; otherwise a crash loses acknowledged writes.
+	persistFirst := raft.IsEmptySnap(rd.Snapshot) && shouldPersistFirst(&rd)
+	if persistFirst {
+		if err := rc.persistRaftState(&rd); err != nil {
+			rc.Errorf("raft save states to disk error: %v", err)
+			go rc.ds.Stop()
+			<-rc.stopc
+			return
+		}
+	}
 	processedMsgs, hasRequestSnapMsg := rc.processMessages(rd.Messages)
 	if len(rd.CommittedEntries) > 0 || !raft.IsEmptySnap(rd.Snapshot) || hasRequestSnapMsg {
 		var newPublished uint64
@@ -1050,11 +1063,13 @@ func (rc *raftNode) processReady(rd raft.Ready) {
 
 	start := time.Now()
 	// TODO: save entries, hardstate and snapshot should be atomic, or it may corrupt the raft
-	if err := rc.persistRaftState(&rd); err != nil {
-		rc.Errorf("raft save states to disk error: %v", err)
-		go rc.ds.Stop()
-		<-rc.stopc
-		return
+	if !persistFirst {
+		if err := rc.persistRaftState(&rd); err != nil {
+			rc.Errorf("raft save states to disk error: %v", err)
+			go rc.ds.Stop()
+			<-rc.stopc
+			return
+		}
 	}
 	cost := time.Since(start)
 	if cost >= raftSlow/2 {
@@ -1132,6 +1147,22 @@ func (rc *raftNode) processReady(rd raft.Ready) {
 		raftDone <- struct{}{}
 	}
 	rc.node.Advance(rd)
+}
+
+// shouldPersistFirst reports whether the commit index of this Ready covers
+// entries that the same Ready still carries as unstable (not yet in the WAL).
+func shouldPersistFirst(rd *raft.Ready) bool {
+	if len(rd.Entries) == 0 {
+		return false
+	}
+	first := rd.Entries[0].Index
+	if !raft.IsEmptyHardState(rd.HardState) && rd.HardState.Commit >= first {
+		return true
+	}
+	if n := len(rd.CommittedEntries); n > 0 && rd.CommittedEntries[n-1].Index >= first {
+		return true
+	}
+	return false
 }
 
 //should  atomically saves the Raft states, log entries and snapshots
